@@ -45,6 +45,9 @@ def items(tier):
                 out.append((sp, {"rule": "TSLACK", "auto_abs": aa, "max_time": F.seq_bound(sp) + 8}))
     for sp in fac:
         out.append((sp, {"rule": "TSLACK", "max_time": F.seq_bound(sp) + 8}))
+    for sp in F.auto_component_specs() + F.rule_sensitive_specs():
+        for aa in (False, True):
+            out.append((sp, {"rule": "TSLACK", "auto_abs": aa, "max_time": F.seq_bound(sp) + 12}))
     # worker skill x facility skill grid on one facility task with 1-2 pairs
     for ws in (0.5, 1.0, 2.0):
         for fs in (0.5, 1.0, 2.0):
